@@ -13,6 +13,8 @@ CLAIMED = {
          'Every enumerated/sampled (path, document) returns (non-empty, nil) xor (nil, documented runtime error); FunctionFailed only when a model function failed.', '6 C03'),
  'C04': ('TLC-enumerated cases replayed with a structural snapshot of the document before/after every call; same assertion on every recorded random evaluation',
          'Snapshot comparison on every case, success or failure, both decode modes, also in accessor mode without Set.', '6 C04'),
+ 'C05': ('TLA+ L2 models FilterProtoHist (heap of list cells persists across calls: TreeImmutable, CallIsPure) and Conc with one goroutine (ResultsPrivate, BufferPrivacy); TLC-enumerated histories (Gen_History: one parsed function x sequences of call/scribble/unrelated over documents that flip filter outcomes and cross slice-growth boundaries) replayed on ONE real parsed function',
+         'Every call compared with the specification response and with a fresh Retrieve; every earlier result slice re-read after every later operation; all histories of <= 3 operations x 22 kill-query functions x 7 documents (quick).', '6 C05'),
  'C07': ('TLA+ KeyLess order (lemma: UTF-8 byte order = code point order) over all 2..5-key subsets of a pool separating byte/UTF-16/length orders (6..12 keys simulated); each case evaluated 32 times on 4 independently built maps interleaved with pool-recycling decoys',
          'Every evaluation must return the specification sequence; >= 64 evaluations per key-set size are counted in the evidence.', '6 C07'),
  'C08': ('TLA+ law Compose model-checked on Select; the same law checked oracle-free on the real library (three retrievals per split, union and recursive-descent corollaries)',
@@ -35,13 +37,13 @@ CLAIMED = {
          'Every enumerated and sampled string.', '6 C17'),
  'C18': ('TLA+ Render under 9 spelling vectors; model-level RoundTrip (Gen_RoundTrip: ParseModel(Render(a, sp)) = a for all 64 vectors); each enumerated case evaluated under every spelling and compared with the canonical one',
          'Values equal, or errors of the same type at the same step.', '6 C18'),
+ 'C19': ('TLA+ Conc (one goroutine): ResidueFree -- no Parse starts on the residue of an earlier one, also after a panic half-way; TLC-enumerated Parse histories (Gen_ParseHist) over a pool of (path, config) pairs aborting at every action, also inside filter operands; each outcome compared with ParseModel/Response and with the same call made first in a fresh process; Config modified after Parse',
+         'All histories of <= 3 calls over 27 (path, config) pairs (quick).', '6 C19'),
  'C20': ('TLA+ opaque values in Select/Holds (Gen_Opaque: leaves replaced by values of 20 Go types chosen by TLC) replayed with the exact-response, shape, snapshot, accessor-parity, call-log and error oracles',
          'All one-step paths x all types, two-step paths x six representative types (quick).', '6 C20'),
 }
 PENDING = {
- 'C05': 'history family (Machine.tla) under construction in this session',
  'C06': 'schedule family (Conc.tla, hooks) under construction in this session',
- 'C19': 'parse-history family (Machine.tla) under construction in this session',
 }
 NOTE = 'TLC and the TLA+ modules in /verif/spec are trusted; the Go harness converts model values; bounded scope.'
 
